@@ -69,7 +69,8 @@ impl Game {
         let mut terms = fen.split_ascii_whitespace();
 
         let mut hash = 0;
-        let mut score = 0;
+        // Wide on purpose: the board is only validated after it has been read
+        let mut score: i32 = 0;
 
         let mut board = [None; 64];
         let mut past_scores = [0; 64];
@@ -118,7 +119,7 @@ impl Game {
                     let position = Position::new_assert(row, col);
                     board[position.as_usize()] = Some(piece);
                     past_scores[position.as_usize()] = piece.score(position, &piece_scores);
-                    score += past_scores[position.as_usize()];
+                    score += past_scores[position.as_usize()] as i32;
                     past_hashes[position.as_usize()] = piece.hash(position);
                     hash ^= past_hashes[position.as_usize()];
 
@@ -229,7 +230,7 @@ impl Game {
             move_stack: Vec::with_capacity(1000),
             king_positions: [white_king_pos, black_king_pos],
             current_player,
-            score,
+            score: score as Score,
             hash,
             state: ArrayVec::new(),
             past_scores,
